@@ -225,6 +225,21 @@ initial_setup(j_compress_ptr cinfo, boolean transcode_only)
                                    compptr->v_samp_factor);
   }
 
+  /* Component IDs are what scan headers refer to, so they must be distinct
+   * (and must fit in a byte) for the datastream to be decodable.
+   */
+  for (ci = 0, compptr = cinfo->comp_info; ci < cinfo->num_components;
+       ci++, compptr++) {
+    int cj;
+
+    if (compptr->component_id < 0 || compptr->component_id > 255)
+      ERREXIT1(cinfo, JERR_BAD_COMPONENT_ID, compptr->component_id);
+    for (cj = 0; cj < ci; cj++) {
+      if (cinfo->comp_info[cj].component_id == compptr->component_id)
+        ERREXIT1(cinfo, JERR_BAD_COMPONENT_ID, compptr->component_id);
+    }
+  }
+
   /* Compute dimensions of components */
   for (ci = 0, compptr = cinfo->comp_info; ci < cinfo->num_components;
        ci++, compptr++) {
